@@ -17,12 +17,44 @@ import (
 	"github.com/whoisnian/glb/zzverif/vctx"
 	"github.com/whoisnian/glb/zzverif/vsched"
 	"verif/engine/sdrive"
+	"verif/engine/vcommon"
 )
+
+// owns says whether the property being decided (-id) is one of those a clause of the oracle
+// belongs to. The four properties share scenarios and one harness, but each check reports
+// only what its own statement says.
+func owns(props ...string) bool {
+	for _, p := range props {
+		if p == *vcommon.ID {
+			return true
+		}
+	}
+	return false
+}
+
+func failFor(msg string, props ...string) {
+	if owns(props...) {
+		vsched.Fail(msg)
+	}
+}
+
+// exactlyOnce lists the properties that own "started exactly once" in a scenario: C06, and
+// C14 ("every other accepted task is still started exactly once") where tasks panic.
+func (sp *spec) exactlyOnce(more ...string) []string {
+	out := append([]string{"C06"}, more...)
+	for _, t := range sp.tasks {
+		if t.panics != nil {
+			return append(out, "C14")
+		}
+	}
+	return out
+}
 
 const (
 	pinNone = iota
 	pinForever
 	pinUntilRelease
+	pinBarrier // returns only after every barrier task of the scenario has been started
 )
 
 type taskSpec struct {
@@ -50,24 +82,27 @@ type spec struct {
 }
 
 type harness struct {
-	sp       *spec
-	tl       *tasklane.TaskLane
-	ctx      vctx.Context
-	tasks    []*task
-	results  []error
-	pushed   []bool
-	running  vatomic.Int32
-	waitRet  bool
-	lane     []*vsched.Thread
-	polled   []int
-	lateErr  error
-	lateDone bool
-	lateTask *task
-	prod     []*vsched.Thread
-	waiterT  []*vsched.Thread
+	sp         *spec
+	tl         *tasklane.TaskLane
+	ctx        vctx.Context
+	tasks      []*task
+	results    []error
+	pushed     []bool
+	running    vatomic.Int32
+	waitRet    bool
+	lane       []*vsched.Thread
+	polled     []int
+	lateErr    error
+	lateDone   bool
+	lateTask   *task
+	prod       []*vsched.Thread
+	waiterT    []*vsched.Thread
 	mainPushed bool
-	releaseC *vsched.Chan[struct{}]
-	foreverC *vsched.Chan[struct{}]
+	releaseC   *vsched.Chan[struct{}]
+	foreverC   *vsched.Chan[struct{}]
+	barrierC   *vsched.Chan[struct{}]
+	barrierN   int // barrier tasks in the scenario
+	arrived    int
 }
 
 type task struct {
@@ -85,14 +120,14 @@ func (t *task) Start() {
 	}
 	t.enters++
 	if t.enters > 1 {
-		vsched.Fail(fmt.Sprintf("C06: task %d started twice", t.id))
+		failFor(fmt.Sprintf("C06: task %d started twice", t.id), h.sp.exactlyOnce()...)
 	}
 	if h.waitRet {
-		vsched.Fail(fmt.Sprintf("C07: task %d started after Wait() had returned", t.id))
+		failFor(fmt.Sprintf("C07: task %d started after Wait() had returned", t.id), "C07")
 	}
 	if h.sp.monitorRun {
 		if n := h.running.Add(1); int(n) > h.sp.L {
-			vsched.Fail(fmt.Sprintf("C08: %d tasks executing at once with laneSize %d", n, h.sp.L))
+			failFor(fmt.Sprintf("C08: %d tasks executing at once with laneSize %d", n, h.sp.L), "C08")
 		}
 		defer h.running.Add(-1)
 	}
@@ -101,6 +136,14 @@ func (t *task) Start() {
 		h.foreverC.Recv()
 	case pinUntilRelease:
 		h.releaseC.Recv2()
+	case pinBarrier:
+		// needs as many workers serving at once as there are barrier tasks
+		h.arrived++
+		if h.arrived == h.barrierN {
+			h.barrierC.Close()
+		} else {
+			h.barrierC.Recv2()
+		}
 	}
 	for i := 0; i < t.sp.yields; i++ {
 		vsched.Yield("task-body")
@@ -131,15 +174,19 @@ func body(sp *spec) func(c *vsched.Ctx) {
 		h := &harness{sp: sp}
 		var cancel vctx.CancelFunc
 		if sp.cancel == "expire" {
-			h.ctx, cancel = vctx.WithTimeout(vctx.Background(), 1)
+			h.ctx, cancel = vctx.WithManualTimeout(vctx.Background(), 1)
 		} else {
 			h.ctx, cancel = vctx.WithCancel(vctx.Background())
 		}
 		_ = cancel
 		h.foreverC = vsched.MakeChan[struct{}]().SetName("pin-forever")
 		h.releaseC = vsched.MakeChan[struct{}]().SetName("pin-release")
+		h.barrierC = vsched.MakeChan[struct{}]().SetName("barrier")
 		for i, ts := range sp.tasks {
 			h.tasks = append(h.tasks, &task{h: h, id: i, sp: ts})
+			if ts.pin == pinBarrier {
+				h.barrierN++
+			}
 		}
 		h.results = make([]error, len(sp.tasks))
 		h.pushed = make([]bool, len(sp.tasks))
@@ -190,22 +237,21 @@ func body(sp *spec) func(c *vsched.Ctx) {
 				var first *tasklane.LaneStatus
 				var firstCopy tasklane.LaneStatus
 				for i := 0; i < sp.polls; i++ {
+					vsched.Tag("Status()")
 					st := h.tl.Status()
+					vsched.Untag()
 					if i == 0 {
 						first, firstCopy = st, *st
 					}
 					h.polled = append(h.polled, st.PendingTask)
-					if st.LaneSize != sp.L || st.QueueSize != sp.Q {
-						vsched.Fail(fmt.Sprintf("C14: Status() reports lane/queue size %d/%d, want %d/%d", st.LaneSize, st.QueueSize, sp.L, sp.Q))
-					}
 					if st.PendingTask < 0 || st.PendingTask > sp.L*(sp.Q+1) {
-						vsched.Fail(fmt.Sprintf("C14: Status().PendingTask=%d outside [0,%d]", st.PendingTask, sp.L*(sp.Q+1)))
+						failFor(fmt.Sprintf("C14: Status().PendingTask=%d outside [0,%d]", st.PendingTask, sp.L*(sp.Q+1)), "C14")
 					}
 				}
 				// a report is a snapshot: it must not change after it was returned
 				vsched.Yield("poller-keeps-report")
 				if first != nil && (first.PendingTask != firstCopy.PendingTask || !reflect.DeepEqual(first.LastPanic, firstCopy.LastPanic)) {
-					vsched.Fail(fmt.Sprintf("C14: a report returned by Status() changed afterwards: PendingTask %d -> %d, LastPanic %v -> %v", firstCopy.PendingTask, first.PendingTask, firstCopy.LastPanic, first.LastPanic))
+					failFor(fmt.Sprintf("C14: a report returned by Status() changed afterwards: PendingTask %d -> %d, LastPanic %v -> %v", firstCopy.PendingTask, first.PendingTask, firstCopy.LastPanic, first.LastPanic), "C14")
 				}
 			})
 		}
@@ -239,6 +285,14 @@ func (h *harness) prodDone(i int) bool {
 
 func (h *harness) atEnd(c *vsched.Ctx) string {
 	sp := h.sp
+	bad := ""
+	// rep records the first failed clause among those the property being decided owns
+	rep := func(msg string, props ...string) {
+		if bad == "" && owns(props...) {
+			bad = msg
+		}
+	}
+	once := sp.exactlyOnce()
 	cancelled := vctx.RawErr(h.ctx) != nil
 	accepted, entered, rejected := 0, 0, 0
 	pinnedForever := 0
@@ -246,10 +300,10 @@ func (h *harness) atEnd(c *vsched.Ctx) string {
 	var lab []string
 	for i, t := range h.tasks {
 		if t.enters > 1 {
-			return fmt.Sprintf("C06: task %d started %d times", i, t.enters)
+			rep(fmt.Sprintf("C06: task %d started %d times", i, t.enters), once...)
 		}
 		entered += t.enters
-		if t.enters == 1 && t.exits == 0 {
+		if t.enters >= 1 && t.exits == 0 {
 			insideBody++
 			if t.sp.pin == pinForever {
 				pinnedForever++
@@ -268,46 +322,31 @@ func (h *harness) atEnd(c *vsched.Ctx) string {
 		default:
 			rejected++
 			err := h.results[i]
-			if err != tasklane.ErrTimeout && err != vctx.Canceled && err != vctx.DeadlineExceeded {
-				return fmt.Sprintf("C06: PushTask returned unexpected error %v", err)
+			isCtx := errors.Is(err, vctx.Canceled) || errors.Is(err, vctx.DeadlineExceeded)
+			if !errors.Is(err, tasklane.ErrTimeout) && !isCtx {
+				rep(fmt.Sprintf("C06: PushTask returned unexpected error %v", err), "C06")
 			}
-			if err != tasklane.ErrTimeout && !cancelled {
-				return fmt.Sprintf("C06: PushTask returned %v although the context is live", err)
+			if isCtx && !cancelled {
+				rep(fmt.Sprintf("C06: PushTask returned %v although the context is live", err), "C06")
 			}
 			if t.enters != 0 {
-				return fmt.Sprintf("C06: task %d was started although PushTask returned %v", i, err)
+				rep(fmt.Sprintf("C06: task %d was started although PushTask returned %v", i, err), "C06")
 			}
 			lab = append(lab, fmt.Sprintf("t%d:%v", i, err))
 		}
 	}
-	// in-flight pushes that already handed their task over count as accepted for the pending arithmetic
-	inflightRan := 0
-	inflightQueued := 0
-	for i, t := range h.tasks {
-		if !h.pushed[i] && t.enters > 0 {
-			inflightRan++
-		}
-	}
-	_ = inflightQueued
-	if cancelled {
-		if sp.latePush {
-			if !h.lateDone {
-				return "C07: PushTask begun after cancellation did not return"
-			}
-			if h.lateErr == nil || (h.lateErr != vctx.Canceled && h.lateErr != vctx.DeadlineExceeded) {
-				return fmt.Sprintf("C07: PushTask begun after cancellation returned %v, want the context's error", h.lateErr)
-			}
-			if h.lateErr != vctx.RawErr(h.ctx) {
-				return fmt.Sprintf("C07: PushTask begun after cancellation returned %v, context error is %v", h.lateErr, vctx.RawErr(h.ctx))
-			}
-			if h.lateTask.enters != 0 {
-				return "C07: a task pushed after cancellation was started"
-			}
+	if cancelled && sp.latePush {
+		switch ctxErr := vctx.RawErr(h.ctx); {
+		case !h.lateDone:
+			rep("C07: PushTask begun after cancellation did not return", "C07")
+		case h.lateErr == nil || !errors.Is(h.lateErr, ctxErr):
+			rep(fmt.Sprintf("C07: PushTask begun after cancellation returned %v, want the context's error %v", h.lateErr, ctxErr), "C07")
+		case h.lateTask.enters != 0:
+			rep("C07: a task pushed after cancellation was started", "C07")
 		}
 	}
 	st := h.tl.Status() // oracle context: raw, consistent snapshot
-	pendingModel := -1
-	// count tasks sitting in the lane (buffers or held by a queue goroutine) = handed to the lane and not entered
+	// tasks handed to the lane (push returned nil, or the push is still in flight but the task already runs) and not entered
 	handed := 0
 	for i, t := range h.tasks {
 		if (h.pushed[i] && h.results[i] == nil) || (!h.pushed[i] && t.enters > 0) {
@@ -315,9 +354,9 @@ func (h *harness) atEnd(c *vsched.Ctx) string {
 		}
 	}
 	// an in-flight push parked on the buffer has not enqueued; one that is not parked cannot exist at quiescence
-	pendingModel = handed - entered
+	pendingModel := handed - entered
 	if st.PendingTask < 0 || st.PendingTask > sp.L*(sp.Q+1) {
-		return fmt.Sprintf("C14: Status().PendingTask=%d outside [0,%d]", st.PendingTask, sp.L*(sp.Q+1))
+		rep(fmt.Sprintf("C14: Status().PendingTask=%d outside [0,%d]", st.PendingTask, sp.L*(sp.Q+1)), "C14")
 	}
 	// C14: LastPanic is one of the values panicked
 	var panicked []any
@@ -328,7 +367,7 @@ func (h *harness) atEnd(c *vsched.Ctx) string {
 	}
 	if len(panicked) == 0 {
 		if st.LastPanic != nil {
-			return fmt.Sprintf("C14: LastPanic=%v although no task panicked", st.LastPanic)
+			rep(fmt.Sprintf("C14: LastPanic=%v although no task panicked", st.LastPanic), "C14")
 		}
 	} else {
 		ok := false
@@ -338,7 +377,7 @@ func (h *harness) atEnd(c *vsched.Ctx) string {
 			}
 		}
 		if !ok {
-			return fmt.Sprintf("C14: LastPanic=%#v is none of the values panicked %#v", st.LastPanic, panicked)
+			rep(fmt.Sprintf("C14: LastPanic=%#v is none of the values panicked %#v", st.LastPanic, panicked), "C14")
 		}
 		lab = append(lab, fmt.Sprintf("lastPanic=%v", st.LastPanic))
 	}
@@ -348,34 +387,43 @@ func (h *harness) atEnd(c *vsched.Ctx) string {
 			laneAlive++
 		}
 	}
+	// workers occupied for good: by a task that never returns, or by a barrier task waiting for
+	// one that cannot be started
+	occupied := insideBody
+	// who owns "an accepted task is never started although a worker should be free": C06
+	// (eventually started) and C08 (no waiting behind a busy worker) - unless a task has
+	// panicked, then it is C14's "its worker keeps serving" that is at stake
+	starve := []string{"C06", "C08"}
+	if len(panicked) > 0 {
+		starve = []string{"C14"}
+	}
 	if !cancelled {
-		// C14/C06: workers survive panics
-		anyGoexit := false
-		for _, t := range h.tasks {
-			anyGoexit = anyGoexit || (t.sp.goexit && t.exits > 0)
-		}
-		if laneAlive != len(h.lane) && !anyGoexit {
-			return fmt.Sprintf("C14: %d of the lane's %d goroutines ended although the context is live", len(h.lane)-laneAlive, len(h.lane))
-		}
-		// C06 + C08: at rest with a live context a task may only still be waiting if every worker is occupied for ever
+		// C06 + C08 (+ C14 where tasks panic: "its worker keeps serving"): at rest with a live
+		// context a task may only still be waiting if every worker is occupied for ever
 		if pendingModel > 0 && pinnedForever < sp.L {
-			return fmt.Sprintf("C06/C08: at rest %d accepted task(s) were never started although only %d of %d workers are blocked by a long task", pendingModel, pinnedForever, sp.L)
+			rep(fmt.Sprintf(strings.Join(starve, "/")+": at rest %d accepted task(s) were never started although only %d of %d workers are blocked by a long task (%d tasks are inside their body)", pendingModel, pinnedForever, sp.L, occupied), starve...)
 		}
 		// no producer can be parked unless the lane is saturated (timers live: it would have timed out)
 		for i, p := range h.prod {
 			if !h.prodDone(i) && pinnedForever < sp.L {
-				return fmt.Sprintf("C06: producer%d is still blocked in PushTask at rest although a worker is free (%s)", i, p.PendingOp())
+				rep(fmt.Sprintf(strings.Join(starve, "/")+": producer%d is still blocked in PushTask at rest although a worker is free (%s)", i, p.PendingOp()), starve...)
 			}
 		}
 	} else {
 		// C07: producers released
 		for i, p := range h.prod {
 			if !h.prodDone(i) {
-				return fmt.Sprintf("C07: producer%d still blocked in PushTask after the context ended (%s)", i, p.PendingOp())
+				rep(fmt.Sprintf("C07: producer%d still blocked in PushTask after the context ended (%s)", i, p.PendingOp()), "C07")
 			}
 		}
 		// C07: Wait returns once every started task has returned; nothing of the lane stays behind
 		if insideBody == 0 {
+			ended := "returned"
+			for _, t := range h.tasks {
+				if t.sp.goexit && t.exits > 0 {
+					ended = "ended (one of them by runtime.Goexit)"
+				}
+			}
 			if laneAlive != 0 {
 				var w []string
 				for _, t := range h.lane {
@@ -383,21 +431,27 @@ func (h *harness) atEnd(c *vsched.Ctx) string {
 						w = append(w, t.Name+":"+t.PendingOp())
 					}
 				}
-				return fmt.Sprintf("C07: %d lane goroutine(s) left behind after cancellation with no task running: %s", laneAlive, strings.Join(w, ", "))
+				rep(fmt.Sprintf("C07: %d lane goroutine(s) left behind after cancellation with no task running: %s", laneAlive, strings.Join(w, ", ")), "C07")
 			}
 			if sp.wait && !h.waitRet {
-				return "C07: Wait() has not returned although the context ended and every started task returned"
+				rep("C07: Wait() has not returned although the context ended and every started task "+ended, "C07")
 			}
 			for i, w := range h.waiterT {
 				if !w.Done() {
-					return fmt.Sprintf("C07: Wait() called from goroutine waiter%d has not returned although the context ended and every started task returned (%s)", i, w.PendingOp())
+					rep(fmt.Sprintf("C07: Wait() called from goroutine waiter%d has not returned although the context ended and every started task %s (%s)", i, ended, w.PendingOp()), "C07")
 				}
 			}
 		}
 		lab = append(lab, fmt.Sprintf("cancelled;wait=%v;alive=%d", h.waitRet, laneAlive))
 	}
-	if st.PendingTask != pendingModel {
-		return fmt.Sprintf("C14: at rest Status().PendingTask=%d but %d tasks are accepted and not yet started (accepted=%d started=%d)", st.PendingTask, pendingModel, handed, entered)
+	// C14: the pending count at rest. After a cancellation pending tasks may be dropped and the
+	// statement does not say whether dropped tasks still count, so the comparison is made with a
+	// live context, or when nothing is left that could have been dropped.
+	if (!cancelled || pendingModel == 0) && st.PendingTask != pendingModel {
+		rep(fmt.Sprintf("C14: at rest Status().PendingTask=%d but %d tasks are accepted and not yet started (accepted=%d started=%d)", st.PendingTask, pendingModel, handed, entered), "C14")
+	}
+	if bad != "" {
+		return bad
 	}
 	if len(h.polled) > 0 {
 		lab = append(lab, fmt.Sprintf("polls=%v", h.polled))
@@ -429,6 +483,9 @@ func main() {
 	s7c := &spec{L: 1, Q: 0, tasks: []taskSpec{{panics: "boom"}, {panics: errBoom}}, producers: [][]push{{{0, 0}, {1, 0}}}, polls: 2, pollers: 2}
 	s9 := &spec{L: 1, Q: 1, tasks: []taskSpec{{panics: "boom"}, {yields: 1}, {yields: 1}}, producers: [][]push{{{0, 0}, {1, 0}, {2, 0}}}, monitorRun: true}
 	s9b := &spec{L: 2, Q: 1, tasks: []taskSpec{{panics: 42}, {yields: 1}, {yields: 1}, {yields: 1}}, producers: [][]push{{{0, 0}, {1, 0}, {2, 1}, {3, 0}}}, monitorRun: true}
+	// after a panic on each worker, two tasks that can only finish when both are running at once
+	s17 := &spec{L: 2, Q: 1, tasks: []taskSpec{{panics: "boom"}, {panics: errBoom}, {pin: pinBarrier}, {pin: pinBarrier}}, producers: [][]push{{{0, 0}, {1, 1}, {2, 0}, {3, 0}}}}
+	s17b := &spec{L: 1, Q: 1, tasks: []taskSpec{{panics: "boom"}, {}, {panics: 42}, {}}, producers: [][]push{{{0, 0}, {1, 0}, {2, 0}, {3, 0}}}}
 	us := boomSlice{"uncomparable", []string{"a", "b"}}
 	s7d := &spec{L: 1, Q: 1, tasks: []taskSpec{{panics: us}, {}, {panics: us}}, producers: [][]push{{{0, 0}, {1, 0}, {2, 0}}}, polls: 1}
 	// wide but shallow: sizes at which a per-lane bitmask, a grouping of lanes or a small fixed array would break
@@ -473,7 +530,7 @@ func main() {
 	s15 := &spec{L: 2, Q: 1, tasks: []taskSpec{{goexit: true}, {yields: 1}}, producers: [][]push{{{0, 0}, {1, 1}}}, cancel: "cancel", wait: true}
 	s8 := &spec{L: 2, Q: 1, tasks: []taskSpec{{pin: pinForever}, {pin: pinForever}, {}, {}, {}}, producers: [][]push{{{0, 0}, {1, 1}, {2, 0}, {3, 1}, {4, 0}}}, polls: 1}
 
-	P := func(b ...int) sdrive.Plan { return sdrive.Plan{Bounds: b} }          // preemption bounds, in-process
+	P := func(b ...int) sdrive.Plan { return sdrive.Plan{Bounds: b} } // preemption bounds, in-process
 	PS := func(n int, b ...int) sdrive.Plan { return sdrive.Plan{Bounds: b, Shards: n} }
 	D := func(b ...int) sdrive.Plan { return sdrive.Plan{Delay: true, Bounds: b} } // delay bounds
 	DS := func(n int, b ...int) sdrive.Plan { return sdrive.Plan{Delay: true, Bounds: b, Shards: n} }
@@ -530,8 +587,17 @@ func main() {
 			Quick: PS(8, b012...), Thorough: PS(16, unb...), Body: body(s14), MinOutcomes: 2},
 		{Name: "s15-L2Q1-goexit-task", Props: []string{"C07"}, About: "a task ends by terminating its goroutine (runtime.Goexit); cancel; Wait must still return",
 			Quick: D(0, 1, 2, 3, 4), Thorough: PS(16, b012...), Body: body(s15), MinOutcomes: 2},
+		{Name: "s17-L2Q1-panics-then-barrier", Props: []string{"C14"}, About: "each of the two workers runs a panicking task, then two tasks arrive that return only when both are running at once: every worker must still be serving",
+			Quick: D(0, 1, 2, 3), Thorough: DS(16, 0, 2, 4, 6), Body: body(s17)},
+		{Name: "s17b-L1Q1-panic-task-panic-task", Props: []string{"C14"}, About: "one worker: panic, task, panic, task - the worker must survive every panic",
+			Quick: P(b012...), Thorough: PS(16, unb...), Body: body(s17b)},
 		{Name: "s8-L2Q1-stable", Props: []string{"C14"}, About: "both workers pinned, three tasks queued: pending count compared exactly at rest",
 			Quick: D(0, 1, 2, 3), Thorough: DS(16, 0, 2, 4, 6, 8), Body: body(s8)},
+	}
+	// only C14 speaks of data races, and of those of Status()
+	sdrive.RaceViolates = func(id, msg string) bool { return id == "C14" && strings.Contains(msg, "[in Status()]") }
+	vcommon.RaceViolates = func(id, report string) bool {
+		return id == "C14" && strings.Contains(report, "tasklane.(*TaskLane).Status")
 	}
 	sdrive.Main("model_checking", scens, []string{
 		"code between two visible operations (channel, atomic, wait-group, context, timer, monitor) is atomic; justified by the happens-before race check on every TaskLane field in every explored execution",
